@@ -2388,6 +2388,9 @@ func (app *App) getNodePositions(activeNodes []string) ([]nodePosition, error) {
 	var positionsMutex sync.Mutex
 	errs := util.RunParallel(func(host string) error {
 		node := app.cluster.Get(host)
+		if node == nil {
+			return fmt.Errorf("host %s is not a registered cluster host", host)
+		}
 		sstatus, err := node.GetReplicaStatus()
 		if err != nil || app.emulateError("freeze_slave_status") {
 			return fmt.Errorf("failed to get slave status on host %s: %w", host, err)
